@@ -92,6 +92,9 @@ def make_listener(log, plan):
             event.set_status_code(plan["outcome"][1])
         elif plan["listener"] == "raise":
             act(event.io, plan["point"], plan["outcome"])
+        elif plan["listener"] == "stop":
+            # lets the command pass but keeps later (lower-priority) listeners out: the command is NOT handled by this
+            event.stop_propagation()
     return listener
 '''
 
@@ -469,6 +472,12 @@ def block_cases(block):
                     yield ["ret", vname, "handler", point, "none", 0, verb, ansi]
             for (kind, _, _), listener, verb, ansi in itertools.product(KINDS, ("none", "raise"), VERBOSITY, (False, True)):
                 yield ["exc", kind, point, x, listener, 0, verb, ansi]
+        # a pre-handle listener that passes AND stops the propagation of the event: the handler still runs, once
+        for vname in ("0", "7", "256"):
+            for line, verb in itertools.product(range(len(LINES)), VERBOSITY):
+                yield ["ret", vname, "handler", "none", "stop", line, verb, False]
+        for (kind, _, _), verb in itertools.product(KINDS, VERBOSITY):
+            yield ["exc", kind, "none", x, "stop", 0, verb, False]
     elif part == "streams":
         # output streams other than buffers
         for kind in ("Exception", "AppError", "from2", "exec"):
